@@ -105,11 +105,11 @@ CHECKS = {
             "Each run regenerates, from go/ssa, the stores to package-level state and the lock operations reachable from Lint*Ex and the registry read API and the kernel checks there are none / only read-mode ones. "
             "Explored: goroutines linting their own objects against shared registries while readers call the registry API, compared with sequential results; thorough builds the harness with -race and varies G and GOMAXPROCS.",
             "DESIGN.md 5/C10", "The Go memory model, scheduler and runtime locks are outside the model; only the schedules actually run are covered for them."),
-    "C17": (True, "Coq theorems (permutation invariance of any-offender rules, of the three-way label evaluation, of fourteen fully modelled name-scanning lints and four common-name-versus-SAN lints, of OID lookup) + in-Coq correspondence of those 25 lints + DER-level permutation of SAN entries and extensions over all lints",
+    "C17": (True, "Coq theorems (permutation invariance of any-offender rules, of the three-way label evaluation, of fourteen fully modelled name-scanning lints, four common-name-versus-SAN lints and thirteen subject-attribute length lints, of OID lookup) + in-Coq correspondence of those 38 lints + DER-level permutation of SAN entries and extensions over all lints",
             "Proof (partial): a rule 'finding if some element offends, else NA if some element is unparseable, else pass' gives the same status on every permutation of the list; the seven DNS-label lints are modelled in that form and tied to the "
             "code by correspondence (the public-suffix parser is an oracle); fourteen more name-scanning lints (label length, empty label, character set, wildcard placement, duplicates, NUL, leading period, name length ...) are modelled in full "
             "(Kernels/Names.v) and all fourteen verdicts are proved invariant under every permutation of the SAN dNSNames; lookup by OID in a duplicate-free extension list is order independent; the pre-repair evaluation is refuted by a witness; the four lints that relate the subject common name(s) to the SAN entries "
-            "(exact match, case-insensitive match, redacted names, EV wildcard; Kernels/CnSan.v) are modelled in full, proved invariant under every permutation of the dNSNames and addresses (status, and details of the exact-match lint) and the exact-match rule is characterised (c17_cn_exact_spec). "
+            "(exact match, case-insensitive match, redacted names, EV wildcard; Kernels/CnSan.v) are modelled in full, proved invariant under every permutation of the dNSNames and addresses (status, and details of the exact-match lint) and the exact-match rule is characterised (c17_cn_exact_spec); the thirteen subject-attribute length lints (Kernels/SubjLen.v, one table-driven model with Go's character counting) are invariant under the order of a repeated attribute's values and report exactly when some value exceeds the limit. "
             "Every modelled-lint stream carries a non-vacuity obligation: each lint must show each of its verdicts somewhere in the stream. Explored: all other lints - generated "
             "certificates with 2-4 SAN names of every type in every order, zoo certificates with up to 257 names reversed / rotated / sorted / shuffled, and corpus certificates with SAN and extension lists reversed/shuffled, all status vectors compared.",
             "DESIGN.md 5/C17", "Re-ordering invalidates the signature: SelfSigned/ValidationLevel are carried over from the original when comparing."),
